@@ -1,18 +1,293 @@
-//! sim-hostile (C06) — placeholder until the fault generators exist.
-use crate::engine::Ctx;
-use crate::spec::{RunResult, RunSpec};
+//! sim-hostile (C06): malformed or hostile files yield an error, never a panic, hang or
+//! memory blow-up.  A storage-fault campaign against a reader (DESIGN §3): single-fault
+//! sweeps over enumerated sites of each fixture, then a seeded multi-fault search with
+//! swarm-varied delivery.
+
+use crate::corpus::{Fixture, Format};
+use crate::engine::*;
+use crate::faultgen::{self, SiteGroup};
+use crate::guard::erase_numbers;
+use crate::image::{self, Parts};
+use crate::prng::{h3, hbytes, tag, Chooser, Sig};
+use crate::runner::{execute, fired_array, ExecOpts, Limits};
+use crate::simdisk::Delivery;
+use crate::spec::{Edit, Layer, RunResult, RunSpec, StoredFault, Violation};
+use crate::wb::{Entry, Op, Outcome};
+use std::sync::Arc;
 
 pub const ID: &str = "C06";
 
-pub fn total_runs(_ctx: &mut Ctx) -> u64 {
-    0
+/// The quick sweep covers a fixed set of small fixtures: all four formats, VBA (xlsm and xls),
+/// tables, merged regions, annotations, repeated rows, rich text, BIFF5, a password file.
+const QUICK_SWEEP: [&str; 14] = [
+    "any_sheets.xls",
+    "any_sheets.xlsx",
+    "any_sheets.xlsb",
+    "any_sheets.ods",
+    "vba.xlsm",
+    "issue281.xlsm",
+    "merge_cells.xls",
+    "biff5_write.xls",
+    "temperature-table.xlsx",
+    "merged_range.xlsx",
+    "date.xlsb",
+    "with-annotation.ods",
+    "number_rows_repeated.ods",
+    "pass_protected.xlsx",
+];
+
+pub struct Layout {
+    /// (fixture index in corpus, first run index, number of runs)
+    pub blocks: Vec<(usize, u64, u64)>,
+    pub sweep_total: u64,
+    pub seeded: u64,
 }
-pub fn gen(_ctx: &mut Ctx, _idx: u64) -> RunSpec {
-    unimplemented!()
+
+fn sweep_fixtures(ctx: &Ctx) -> Vec<usize> {
+    match ctx.tier {
+        Tier::Quick => QUICK_SWEEP.iter().filter_map(|n| ctx.corpus.iter().position(|f| f.name == *n)).collect(),
+        Tier::Thorough => (0..ctx.corpus.len()).collect(),
+    }
 }
-pub fn run(_ctx: &mut Ctx, idx: u64) -> RunResult {
-    RunResult { idx, ..Default::default() }
+
+pub fn sites_of(ctx: &mut Ctx, fi: usize) -> Arc<Vec<SiteGroup>> {
+    let fx = ctx.corpus[fi].clone();
+    if let Some(s) = ctx.sites.get(&fx.name) {
+        return s.clone();
+    }
+    let tier = ctx.tier;
+    let parts = ctx.parts.entry(fx.name.clone()).or_insert_with(|| Parts::new(&fx.bytes));
+    let s = Arc::new(faultgen::sites(&fx, parts, tier));
+    ctx.sites.insert(fx.name.clone(), s.clone());
+    s
 }
-pub fn exec_spec(_ctx: &mut Ctx, _spec: &RunSpec, idx: u64) -> RunResult {
-    RunResult { idx, ..Default::default() }
+
+pub fn layout(ctx: &mut Ctx) -> Arc<Layout> {
+    if let Some(l) = &ctx.c06_layout {
+        return l.clone();
+    }
+    let mut blocks = Vec::new();
+    let mut at = 0u64;
+    for fi in sweep_fixtures(ctx) {
+        let n = sites_of(ctx, fi).len() as u64 * 2;
+        blocks.push((fi, at, n));
+        at += n;
+    }
+    let seeded = match ctx.tier {
+        Tier::Quick => 60_000,
+        Tier::Thorough => 4_000_000,
+    };
+    let l = Arc::new(Layout { blocks, sweep_total: at, seeded });
+    ctx.c06_layout = Some(l.clone());
+    l
+}
+
+pub fn total_runs(ctx: &mut Ctx) -> u64 {
+    let l = layout(ctx);
+    l.sweep_total + l.seeded
+}
+
+fn alt_entry(fx: &Fixture, inner: bool, h: u64) -> Entry {
+    if inner {
+        return Entry::Auto;
+    }
+    let own = Entry::own(fx.format);
+    let mut pool = vec![Entry::Auto, Entry::Auto, Entry::Xls, Entry::Xlsx, Entry::Xlsb, Entry::Ods];
+    if fx.format == Format::Xls {
+        pool.push(Entry::Vba);
+        pool.push(Entry::Vba);
+    }
+    pool.retain(|e| *e != own);
+    pool[(h % pool.len() as u64) as usize]
+}
+
+fn random_raw(ch: &mut Chooser, len: usize) -> StoredFault {
+    let len = len.max(1);
+    let off = ch.below(len as u64) as usize;
+    match ch.below(6) {
+        0 => StoredFault { layer: Layer::Raw, edit: Some(Edit::Trunc { len: off }), why: format!("raw:truncate at {} of {}", off, len) },
+        1 => {
+            let n = ch.range(1, 8) as usize;
+            let bytes: Vec<u8> = (0..n).map(|_| ch.next() as u8).collect();
+            StoredFault { layer: Layer::Raw, edit: Some(Edit::Set { off, bytes }), why: format!("raw:random-bytes {} bytes at {}", n, off) }
+        }
+        2 => StoredFault { layer: Layer::Raw, edit: Some(Edit::Set { off: off & !511, bytes: vec![0; 512] }), why: format!("raw:sector-zero sector at {} (lost write)", off & !511) },
+        3 => StoredFault { layer: Layer::Raw, edit: Some(Edit::Delete { off, len: ch.range(1, 600) as usize }), why: format!("raw:delete bytes at {}", off) },
+        4 => StoredFault { layer: Layer::Raw, edit: Some(Edit::Set { off, bytes: vec![0xFF; 4] }), why: format!("raw:ff-dword at {}", off) },
+        _ => StoredFault { layer: Layer::Raw, edit: Some(Edit::Set { off, bytes: vec![ch.next() as u8] }), why: format!("raw:random-byte at {}", off) },
+    }
+}
+
+pub fn gen(ctx: &mut Ctx, idx: u64) -> RunSpec {
+    let l = layout(ctx);
+    if idx < l.sweep_total {
+        // ---- sweep: one enumerated site, full-length delivery, two entries ----
+        let b = l.blocks.iter().find(|b| idx >= b.1 && idx < b.1 + b.2).copied().unwrap();
+        let fx = ctx.corpus[b.0].clone();
+        let sites = sites_of(ctx, b.0);
+        let k = idx - b.1;
+        let g = &sites[(k / 2) as usize];
+        let entry = if k % 2 == 0 {
+            if g.inner.is_some() {
+                Entry::Vba
+            } else {
+                Entry::own(fx.format)
+            }
+        } else {
+            alt_entry(&fx, g.inner.is_some(), hbytes(format!("{}#{}", fx.name, k).as_bytes()))
+        };
+        return RunSpec {
+            property: ID.into(),
+            file: fx.name.clone(),
+            inner: g.inner.clone(),
+            entry,
+            stored_faults: g.faults.clone(),
+            delivery: Delivery::perfect(),
+            ops: vec![Op::Sweep],
+            note: format!("sweep site {} of {}", k / 2, sites.len()),
+        };
+    }
+    // ---- seeded multi-fault search ----
+    let j = idx - l.sweep_total;
+    let seed = h3(ctx.seed, tag(ID), j);
+    let mut ch = Chooser::new(seed, "c06");
+    let fi = ch.below(ctx.corpus.len() as u64) as usize;
+    let fx = ctx.corpus[fi].clone();
+    let sites = sites_of(ctx, fi);
+    let nf = match ch.below(10) {
+        0..=3 => 1,
+        4..=6 => 2,
+        7..=8 => 3,
+        _ => 4,
+    };
+    let mut inner: Option<String> = None;
+    let mut faults: Vec<StoredFault> = Vec::new();
+    for k in 0..nf {
+        if !sites.is_empty() && ch.chance(7, 10) {
+            let g = &sites[ch.below(sites.len() as u64) as usize];
+            if k == 0 {
+                inner = g.inner.clone();
+            }
+            if g.inner != inner {
+                continue;
+            }
+            faults.extend(g.faults.iter().cloned());
+        } else {
+            faults.push(random_raw(&mut ch, fx.bytes.len()));
+        }
+    }
+    if faults.is_empty() {
+        faults.push(random_raw(&mut ch, fx.bytes.len()));
+    }
+    let entry = if inner.is_some() {
+        if ch.chance(4, 5) {
+            Entry::Vba
+        } else {
+            Entry::Auto
+        }
+    } else {
+        match ch.below(20) {
+            0..=10 => Entry::own(fx.format),
+            11..=15 => Entry::Auto,
+            _ => alt_entry(&fx, false, ch.next()),
+        }
+    };
+    let delivery = if ch.chance(1, 2) {
+        Delivery::perfect()
+    } else {
+        let cfg = if ch.chance(1, 3) { Cfg::B } else { Cfg::A };
+        gen_delivery(&mut ch, cfg, fx.bytes.len())
+    };
+    RunSpec { property: ID.into(), file: fx.name.clone(), inner, entry, stored_faults: faults, delivery, ops: vec![Op::Sweep], note: format!("seeded #{}", j) }
+}
+
+pub fn exec_spec(ctx: &mut Ctx, spec: &RunSpec, idx: u64) -> RunResult {
+    let fx = match crate::corpus::find(&ctx.corpus, &spec.file) {
+        Some(f) => f.clone(),
+        None => return RunResult { idx, outcome: format!("harness: unknown file {}", spec.file), ..Default::default() },
+    };
+    let parts = ctx.parts.entry(fx.name.clone()).or_insert_with(|| Parts::new(&fx.bytes));
+    let built = match image::build(&fx.bytes, parts, spec.inner.as_deref(), &spec.stored_faults) {
+        Ok(b) => b,
+        Err(e) => {
+            return RunResult { idx, exec: spec_hash(spec), outcome: format!("harness:image-not-built ({})", e), spec: Some(spec.clone()), ..Default::default() };
+        }
+    };
+    let clean = ctx.clean_ns(&fx);
+    let image = Arc::new(built.image);
+    let limits = Limits::for_input(image.len().max(fx.bytes.len()), crate::c08::cpu_budget(clean) * ctx.cpu_scale);
+    let ex = execute(image.clone(), spec.entry, spec.delivery.clone(), &spec.ops, limits, &ExecOpts { capture: false, stop_on_panic: true, probes: &built.probes });
+    let mut violations = Vec::new();
+    if let Outcome::Panic(p) = &ex.open {
+        violations.push(Violation {
+            class: "panic".into(),
+            origin: p.origin.clone(),
+            client: p.client.clone(),
+            msg: erase_numbers(&p.msg),
+            op: 0,
+            detail: format!("{} on {} [{}]", spec.entry.name(), spec.file, spec.stored_faults.iter().map(|f| f.why.as_str()).collect::<Vec<_>>().join("; ")),
+        });
+    }
+    for (i, r) in ex.ops.iter().enumerate() {
+        if let Outcome::Panic(p) = &r.outcome {
+            violations.push(Violation {
+                class: "panic".into(),
+                origin: p.origin.clone(),
+                client: p.client.clone(),
+                msg: erase_numbers(&p.msg),
+                op: i as i32 + 1,
+                detail: format!("{:?} (header {:?}) on {} opened as {} [{}]", r.op, r.header, spec.file, ex.kind, spec.stored_faults.iter().map(|f| f.why.as_str()).collect::<Vec<_>>().join("; ")),
+            });
+        }
+    }
+    if ex.budget_exceeded {
+        violations.push(Violation {
+            class: "steps".into(),
+            origin: "io-step-budget".into(),
+            client: String::new(),
+            msg: format!("more than 64 x input + 1e5 I/O events"),
+            op: -1,
+            detail: format!("{} events on an image of {} bytes", ex.events, image.len()),
+        });
+    }
+    let consumed = ex.consumed.iter().filter(|c| **c).count() as u32;
+    let mut s = Sig::new();
+    s.u(det_hash(&ex));
+    for v in &violations {
+        s.s(&v.origin);
+    }
+    let want_sample = ctx.verbose || !violations.is_empty();
+    let mut kinds: Vec<String> = spec.stored_faults.iter().map(image::kind_of).collect();
+    kinds.sort();
+    kinds.dedup();
+    let open_class = match &ex.open {
+        Outcome::Ok(_) => format!("opened:{}", ex.kind),
+        o => format!("open-{}", o.class()),
+    };
+    RunResult {
+        idx,
+        exec: spec_hash(spec),
+        io: ex.io_sig,
+        det: s.0,
+        nontrivial: consumed > 0 || ex.fired.error_faults() > 0,
+        events: ex.events,
+        bytes: ex.bytes,
+        ops: ex.ops.len() as u32 + 1,
+        fired: fired_array(&ex.fired),
+        stored: spec.stored_faults.len() as u32,
+        consumed,
+        kinds,
+        outcome: format!("{}:{}", spec.entry.name(), open_class),
+        probes: vec![],
+        spec: if want_sample { Some(spec.clone()) } else { None },
+        sample: if want_sample { Some(sample_json(spec, &ex)) } else { None },
+        violations,
+        peak: ex.alloc.peak as u64,
+        cpu_us: (ex.cpu_ns / 1000) as u64,
+    }
+}
+
+pub fn run(ctx: &mut Ctx, idx: u64) -> RunResult {
+    let spec = gen(ctx, idx);
+    exec_spec(ctx, &spec, idx)
 }
